@@ -10,13 +10,22 @@ import (
 	"bufio"
 	"bytes"
 	"context"
+	"crypto/ecdsa"
+	"crypto/elliptic"
+	"crypto/rand"
+	"crypto/tls"
+	"crypto/x509"
+	"crypto/x509/pkix"
+	"encoding/pem"
 	"errors"
 	"fmt"
 	"io"
 	"log"
+	"math/big"
 	"net"
 	"os"
 	osexec "os/exec"
+	"path/filepath"
 	"regexp"
 	"runtime"
 	"strconv"
@@ -31,7 +40,7 @@ import (
 // ops that reach driver goroutines
 func isChildOp(op string) bool {
 	switch strings.SplitN(op, " ", 2)[0] {
-	case "hs", "hsnoauth", "disclose", "hsx", "newsession", "nocred", "disclose2", "sesscfg", "mon":
+	case "hs", "hsnoauth", "disclose", "hsx", "newsession", "nocred", "disclose2", "sesscfg", "mon", "tlsx", "tlscred":
 		return true
 	}
 	return false
@@ -263,7 +272,8 @@ func servePeer(c net.Conn, script []string) {
 
 // scenario = what one child op runs
 type scenario struct {
-	mode   string // startup (VerifStartup: ConnConfig.Authenticator directly) | connect (VerifConnect) | newsession
+	mode   string // startup (VerifStartup: ConnConfig.Authenticator directly) | connect (VerifConnect) | newsession | tls
+	tls    tlsScenario
 	host   int
 	static string
 	prov   string
@@ -296,6 +306,13 @@ func parseScenario(op string) scenario {
 			m = "newsession"
 		}
 		return scenario{mode: m, host: h, static: kv(w[2], "static"), prov: kv(w[3], "prov"), script: w[4:]}
+	case "tlsx", "tlscred":
+		// <cfg> <ehv> <ca> <auth> <class> <certA> <certB> <dial>…
+		if len(w) < 9 {
+			panic("bad tls op")
+		}
+		return scenario{mode: "tls", static: w[4], prov: "-", script: []string{"sup", "auth:" + w[5], "succ"},
+			tls: tlsScenario{cfg: w[1], ehv: w[2] == "1", ca: w[3], certs: map[string]string{"a": w[6], "b": w[7]}, dials: w[8:]}}
 	case "disclose2":
 		h, err := strconv.Atoi(kv(w[1], "host"))
 		if err != nil {
@@ -338,6 +355,8 @@ func runScenario(sc scenario) (outcome string) {
 		err := gocql.VerifConnect(cfg, "", net.IPv4(10, 0, 0, byte(sc.host)), 9042)
 		d.wg.Wait()
 		return classify(err)
+	case "tls":
+		return runTLS(sc)
 	case "newsession":
 		d := &scriptedDialer{script: sc.script, once: true}
 		cfg := gocql.NewCluster(fmt.Sprintf("10.0.0.%d", sc.host))
@@ -384,6 +403,7 @@ type raw struct {
 	sent, prov, calls []string
 	dials             int
 	post              bool
+	ev                []string // every event line of the scenario in order (multi-dial scenarios)
 	outcome           string // class of the returned error / "ready"; "" when the process died
 	fatal             string // "crash:<fn>" | "hang:<fn>" when the process died / hung in this scenario
 }
@@ -417,6 +437,23 @@ func hangFrame(stderr string) string {
 	return fatalFrame(stderr[i:])
 }
 
+var (
+	scratchOnce sync.Once
+	scratch     string
+)
+
+// scratchDir: one directory for everything the children write (removed by the parent at the end)
+func scratchDir() string {
+	scratchOnce.Do(func() {
+		d, err := os.MkdirTemp("", "verif-c20-run-")
+		if err != nil {
+			panic(err)
+		}
+		scratch = d
+	})
+	return scratch
+}
+
 // runChild runs ops in one child process; it returns the observations of the scenarios that were started
 // (the last one carries `fatal` if the process died in it).
 func runChild(ops []string) []raw {
@@ -424,16 +461,16 @@ func runChild(ops []string) []raw {
 	if err != nil {
 		panic(err)
 	}
-	f, err := os.CreateTemp("", "verif-c20-child-*.txt")
+	f, err := os.CreateTemp(scratchDir(), "child-*.txt")
 	if err != nil {
 		panic(err)
 	}
-	defer os.Remove(f.Name())
 	f.WriteString(strings.Join(ops, "\n") + "\n")
 	f.Close()
 	ctx, cancel := context.WithTimeout(context.Background(), 30*time.Minute)
 	defer cancel()
 	cmd := osexec.CommandContext(ctx, self, "child", "-", f.Name())
+	cmd.Env = append(os.Environ(), "VERIF_C20_TMP="+scratchDir())
 	var stdout, stderr bytes.Buffer
 	cmd.Stdout, cmd.Stderr = &stdout, &stderr
 	runErr := cmd.Run()
@@ -448,6 +485,9 @@ func runChild(ops []string) []raw {
 			continue
 		}
 		k, p := l[:1], l[2:]
+		if cur != nil && k != "B" {
+			cur.ev = append(cur.ev, l)
+		}
 		switch k {
 		case "B":
 			res = append(res, raw{})
@@ -608,6 +648,8 @@ func format(op string, r raw) string {
 			return r.fatal
 		}
 		return monitor(parseScenario(op), r)
+	case "tlsx", "tlscred":
+		return formatTLS(w[0], r)
 	case "hsnoauth":
 		return pre + ready + " credentials-sent=" + credSent(r)
 	case "nocred":
@@ -779,4 +821,268 @@ func monitor(sc scenario, r raw) string {
 		}
 	}
 	return "ok"
+}
+
+// ---------- end to end with TLS: real listeners on the loopback interface, the session's own dialer
+// (connConfig → setupTLSConfig → defaultHostDialer.DialHost → WrapTLS → crypto/tls → Conn.init)
+
+type tlsScenario struct {
+	cfg   string            // nil | I<0|1>S<0|1>R<0|1>  (InsecureSkipVerify, ServerName "sn.example", RootCAs = the scenario CA)
+	ehv   bool              // EnableHostVerification
+	ca    string            // CaPath: absent | valid (the scenario CA)
+	certs map[string]string // node → certificate kind: good | peer | other | untrusted
+	dials []string          // <node>:<n|i>  n = HostInfo has the node's name, i = no hostname (IP literal is used)
+}
+
+var nodeNames = map[string]string{"a": "node-a.verif.example", "b": "node-b.verif.example"}
+
+const explicitServerName = "sn.example"
+
+type tlsNode struct {
+	id   string
+	ln   net.Listener
+	port int
+	mu   sync.Mutex
+	cert *tls.Certificate
+	scr  []string
+}
+
+type tlsEnvT struct {
+	caPath  string
+	pool    *x509.CertPool
+	nodes   map[string]*tlsNode
+	certs   map[string]*tls.Certificate // "<node>/<kind>"
+	pending sync.WaitGroup              // connections dialled by the driver and not yet finished on the server side
+}
+
+var tlsEnv *tlsEnvT
+
+type signer struct {
+	cert *x509.Certificate
+	key  *ecdsa.PrivateKey
+}
+
+func mkCA(cn string) signer {
+	k, err := ecdsa.GenerateKey(elliptic.P256(), rand.Reader)
+	if err != nil {
+		panic(err)
+	}
+	tpl := &x509.Certificate{SerialNumber: big.NewInt(time.Now().UnixNano()), Subject: pkix.Name{CommonName: cn},
+		NotBefore: time.Now().Add(-time.Hour), NotAfter: time.Now().Add(24 * time.Hour),
+		KeyUsage: x509.KeyUsageCertSign | x509.KeyUsageDigitalSignature, IsCA: true, BasicConstraintsValid: true}
+	der, err := x509.CreateCertificate(rand.Reader, tpl, tpl, &k.PublicKey, k)
+	if err != nil {
+		panic(err)
+	}
+	c, _ := x509.ParseCertificate(der)
+	return signer{c, k}
+}
+
+func mkLeaf(ca signer, dns []string, ips []net.IP) *tls.Certificate {
+	k, err := ecdsa.GenerateKey(elliptic.P256(), rand.Reader)
+	if err != nil {
+		panic(err)
+	}
+	tpl := &x509.Certificate{SerialNumber: big.NewInt(time.Now().UnixNano()), Subject: pkix.Name{CommonName: "verif-node"},
+		NotBefore: time.Now().Add(-time.Hour), NotAfter: time.Now().Add(24 * time.Hour),
+		KeyUsage: x509.KeyUsageDigitalSignature, ExtKeyUsage: []x509.ExtKeyUsage{x509.ExtKeyUsageServerAuth},
+		DNSNames: dns, IPAddresses: ips}
+	der, err := x509.CreateCertificate(rand.Reader, tpl, ca.cert, &k.PublicKey, ca.key)
+	if err != nil {
+		panic(err)
+	}
+	return &tls.Certificate{Certificate: [][]byte{der}, PrivateKey: k}
+}
+
+func getTLSEnv() *tlsEnvT {
+	if tlsEnv != nil {
+		return tlsEnv
+	}
+	dir, err := os.MkdirTemp(os.Getenv("VERIF_C20_TMP"), "verif-c20-tls-") // the parent removes VERIF_C20_TMP
+	if err != nil {
+		panic(err)
+	}
+	e := &tlsEnvT{nodes: map[string]*tlsNode{}, certs: map[string]*tls.Certificate{}, pool: x509.NewCertPool()}
+	ca, rogue := mkCA("verif-scenario-ca"), mkCA("verif-rogue-ca")
+	e.caPath = filepath.Join(dir, "ca.pem")
+	if err := os.WriteFile(e.caPath, pem.EncodeToMemory(&pem.Block{Type: "CERTIFICATE", Bytes: ca.cert.Raw}), 0o600); err != nil {
+		panic(err)
+	}
+	e.pool.AddCert(ca.cert)
+	lo := []net.IP{net.IPv4(127, 0, 0, 1)}
+	for id, other := range map[string]string{"a": "b", "b": "a"} {
+		e.certs[id+"/good"] = mkLeaf(ca, []string{nodeNames[id], explicitServerName}, lo)
+		e.certs[id+"/peer"] = mkLeaf(ca, []string{nodeNames[other], explicitServerName}, lo)
+		e.certs[id+"/other"] = mkLeaf(ca, []string{"other.verif.example"}, nil)
+		e.certs[id+"/untrusted"] = mkLeaf(rogue, []string{nodeNames[id], explicitServerName}, lo)
+		ln, err := net.Listen("tcp", "127.0.0.1:0")
+		if err != nil {
+			panic(err)
+		}
+		n := &tlsNode{id: id, ln: ln, port: ln.Addr().(*net.TCPAddr).Port}
+		e.nodes[id] = n
+		go func() {
+			for {
+				c, err := ln.Accept()
+				if err != nil {
+					return
+				}
+				go e.handle(n, c)
+			}
+		}()
+	}
+	tlsEnv = e
+	return e
+}
+
+func (e *tlsEnvT) handle(n *tlsNode, c net.Conn) {
+	defer e.pending.Done()
+	defer c.Close()
+	n.mu.Lock()
+	cert, scr := n.cert, n.scr
+	n.mu.Unlock()
+	tc := tls.Server(c, &tls.Config{MinVersion: tls.VersionTLS12, SessionTicketsDisabled: true,
+		GetCertificate: func(h *tls.ClientHelloInfo) (*tls.Certificate, error) {
+			emit("I", vh.Hex([]byte(h.ServerName)))
+			return cert, nil
+		}})
+	tc.SetDeadline(time.Now().Add(driverTimeout))
+	if err := tc.Handshake(); err != nil {
+		emit("T", "fail")
+		return
+	}
+	emit("T", "ok")
+	tc.SetDeadline(time.Time{})
+	servePeer(tc, scr)
+	tc.Close()
+}
+
+// countingDialer is the ClusterConfig.Dialer: a plain TCP dial that is announced to the environment first, so that
+// the scenario can wait for the server side of every connection the driver opened.
+type countingDialer struct {
+	e *tlsEnvT
+	d net.Dialer
+}
+
+func (cd *countingDialer) DialContext(ctx context.Context, network, addr string) (net.Conn, error) {
+	cd.e.pending.Add(1)
+	c, err := cd.d.DialContext(ctx, network, addr)
+	if err != nil {
+		cd.e.pending.Done()
+	}
+	return c, err
+}
+
+func runTLS(sc scenario) string {
+	e := getTLSEnv()
+	t := sc.tls
+	for id, n := range e.nodes {
+		c := e.certs[id+"/"+t.certs[id]]
+		if c == nil {
+			panic("bad cert kind " + t.certs[id])
+		}
+		n.mu.Lock()
+		n.cert, n.scr = c, sc.script
+		n.mu.Unlock()
+	}
+	o := &gocql.SslOptions{EnableHostVerification: t.ehv}
+	switch t.ca {
+	case "absent":
+	case "valid":
+		o.CaPath = e.caPath
+	default:
+		panic("bad ca " + t.ca)
+	}
+	if t.cfg != "nil" {
+		if len(t.cfg) != 6 {
+			panic("bad cfg " + t.cfg)
+		}
+		o.Config = &tls.Config{InsecureSkipVerify: t.cfg[1] == '1'}
+		if t.cfg[3] == '1' {
+			o.Config.ServerName = explicitServerName
+		}
+		if t.cfg[5] == '1' {
+			o.Config.RootCAs = e.pool.Clone() // (setupTLSConfig may append CaPath to the caller's pool: KF-C20-1)
+		}
+	}
+	cfg := gocql.NewCluster("127.0.0.1")
+	cfg.ProtoVersion, cfg.ConnectTimeout, cfg.Timeout = 4, driverTimeout, driverTimeout
+	cfg.Logger = discardLogger
+	cfg.SslOpts = o
+	cfg.Dialer = &countingDialer{e: e, d: net.Dialer{Timeout: driverTimeout}}
+	cfg.Authenticator = mkAuth(sc.static)
+	sess, err := gocql.VerifNewSess(cfg)
+	if err != nil {
+		return "err:tlsconfig"
+	}
+	for _, d := range t.dials {
+		p := strings.Split(d, ":")
+		n := e.nodes[p[0]]
+		if n == nil || len(p) != 2 {
+			panic("bad dial " + d)
+		}
+		hostname := ""
+		if p[1] == "n" {
+			hostname = nodeNames[p[0]]
+		}
+		emit("N", d)
+		err := sess.Connect(hostname, net.IPv4(127, 0, 0, 1), n.port)
+		e.pending.Wait()
+		emit("O", classify(err))
+	}
+	return "done"
+}
+
+// formatTLS: per dial `<dial> sni=… tls=… sent=… outcome=…` (tlsx) or `<dial> proceeded=… cred=…` (tlscred)
+func formatTLS(op string, r raw) string {
+	if r.fatal != "" {
+		return r.fatal
+	}
+	if r.outcome != "done" {
+		return r.outcome
+	}
+	type dial struct {
+		name, sni, tls, outcome string
+		sent                    []string
+	}
+	var ds []*dial
+	for _, l := range r.ev {
+		k, p := l[:1], l[2:]
+		if k == "N" {
+			ds = append(ds, &dial{name: p, sni: "none", tls: "none"})
+			continue
+		}
+		if len(ds) == 0 {
+			continue
+		}
+		d := ds[len(ds)-1]
+		switch k {
+		case "I":
+			d.sni = p
+		case "T":
+			d.tls = p
+		case "S":
+			d.sent = append(d.sent, p)
+		case "O":
+			d.outcome = p
+		}
+	}
+	var out []string
+	for _, d := range ds {
+		if op == "tlsx" {
+			out = append(out, fmt.Sprintf("%s sni=%s tls=%s sent=%s outcome=%s", d.name, d.sni, d.tls, list(d.sent), d.outcome))
+			continue
+		}
+		proceeded, cred := "0", "0"
+		if len(d.sent) > 0 {
+			proceeded = "1"
+		}
+		for _, s := range d.sent {
+			if strings.HasPrefix(s, "authresp") {
+				cred = "1"
+			}
+		}
+		out = append(out, fmt.Sprintf("%s proceeded=%s cred=%s", d.name, proceeded, cred))
+	}
+	return strings.Join(out, " | ")
 }
